@@ -184,6 +184,20 @@ class World:
       self.Qidx = getattr(self, 'Qidx', []) + [qidx]
     self.qnames = sorted(self.Q[0].keys())
     self.nt, self.nv, self.ns = len(self.T), 2, 2
+    if name.startswith('SDML'):
+      # SDML may legitimately fail (RuntimeError, C13) when its solver finds the problem too ill-conditioned: such
+      # a world says nothing about the life-cycle, so the (deterministic) construction is redone with another seed
+      for j in (0, 1):
+        for i in range(len(self.train)):
+          try:
+            self.fit(self.new(j + 1), i + 1)
+          except RuntimeError:
+            if seed < 10 ** 12:
+              self.__init__(name, seed + 1000003, same_dims=same_dims and not indexed, nparams=nparams, ndata=ndata,
+                            with_arrays=with_arrays, indexed=indexed, wide=wide)
+              return
+          except ValueError:
+            pass
     if indexed:
       # every data-taking call gets INDICES; each parameter setting carries its own array preprocessor (different
       # points under the same indices), so a stale preprocessor_ shows up as a wrong model / output
